@@ -90,7 +90,6 @@ fn gen_probes(seed: u64, n: usize) {
     let mut w = gen_soak_workload(&mut rng, 0, 4, false);
     // plus long strings (many tokens) of every class mix
     let all: Vec<usize> = (0..17).collect();
-    let base = w.pool.len();
     for _ in 0..96 {
         let mut s = String::new();
         for _ in 0..2 + rng.usize_below(4) {
@@ -98,12 +97,20 @@ fn gen_probes(seed: u64, n: usize) {
         }
         w.pool.push(s);
     }
+    // every probe input through every profile and every operation (compare: with itself and with
+    // another input), static and fresh-instance form alternating
+    for extra in ["Iris", "IRIS", "I", "i", "TITLE", "Istanbul", "\u{130}stanbul", "DIYARBAKIR", "MIXED Case I", "\u{3a3}\u{399}\u{3a3}"] {
+        w.pool.push(extra.to_string());
+    }
     let mut lines = vec![];
+    let mut flip = 0u8;
     for a in 0..w.pool.len() {
         for profile in 0..4u8 {
-            let kind = if a >= base { 1 } else { rng.below(3) as u8 };
-            let b = rng.usize_below(w.pool.len());
-            lines.push(format!("{} {} {} 0 0 {} {}", profile, kind, if rng.chance(1, 2) { 0 } else { 1 }, simcore::hex(w.pool[a].as_bytes()), if kind == 2 { simcore::hex(w.pool[b].as_bytes()) } else { String::new() }));
+            for kind in 0..3u8 {
+                let b = if kind == 2 && rng.chance(1, 2) { rng.usize_below(w.pool.len()) } else { a };
+                flip ^= 1;
+                lines.push(format!("{} {} {} 0 0 {} {}", profile, kind, flip, simcore::hex(w.pool[a].as_bytes()), if kind == 2 { simcore::hex(w.pool[b].as_bytes()) } else { String::new() }));
+            }
         }
     }
     for l in lines.iter().take(n) {
